@@ -313,11 +313,6 @@ def install3(R):
     c.ensures = [("removed", "crop_removed(self.location)"), ("outside", "fs_unchanged_outside(self.location)")]
 
     # ---------------------------------------------------------------- farmers (caller side; bodies under C05/C15)
-    R.add(FARM + "Harvester.add_ds", cls="Harvester", result="none", assumed=True,
-          modifies=["self._full_ds", "ghost:FS"],
-          ensures=[("only_data_file", "fs_same_except(HarvestPath(self))")],
-          raises={"AnyError": dict(ensures=["fs_same_except(HarvestPath(self))"])},
-          notes="summary: touches only the harvester's own data file (C05 verifies the body)")
     R.add(FARM + "Sampler.add_df", cls="Sampler", result="none", assumed=True,
           modifies=["self._full_df", "ghost:FS"],
           ensures=[("only_data_file", "fs_same_except(self.data_name)")],
@@ -397,9 +392,12 @@ def install3(R):
           raises={"AnyError": dict(ensures=["crop_files_unchanged(self.location)"])},
           on_raise=[("crop_untouched", "crop_files_unchanged(self.location)")])
 
+    HNAMED = ("implies(_H_ is not None and _H_.data_name is not None, is_str_value(_H_.data_name) and KnownEngine(_H_.engine) and "
+              "not IsTmp(HarvestPath(_H_)) and _H_.engine != 'zarr')")
     R.add(K + "Crop.reap_harvest", cls="Crop", result="V", props=["C12", "C06"], types={"harvester": "obj:Harvester"},
           requires=[("sown", "fs_exists(InfoPath(self.location))"),
-                    ("data_file_outside_crop", "not under(self.location, HarvestPath(harvester))")],
+                    ("data_file_outside_crop", "not under(self.location, HarvestPath(harvester))"),
+                    ("harvester_named", HNAMED.replace("_H_", "harvester"))],
           modifies=["*"],
           ensures=[
               ("reaps_without_cleanup", "call_arg('Crop.reap_runner', 'clean_up') == False and call_arg('Crop.reap_runner', 'to_df') == False "
@@ -433,7 +431,8 @@ def install3(R):
 
     R.add(K + "Crop.reap", cls="Crop", result="V", props=["C12", "C06"],
           requires=[("sown", "fs_exists(InfoPath(self.location))"),
-                    ("data_file_outside_crop", "implies(isinstance(self.farmer, Harvester), not under(self.location, HarvestPathV(self.farmer)))")],
+                    ("data_file_outside_crop", "implies(isinstance(self.farmer, Harvester), not under(self.location, HarvestPathV(self.farmer)))"),
+                    ("harvester_named", "implies(isinstance(self.farmer, Harvester), HarvesterNamedV(self.farmer))")],
           modifies=["*"],
           ensures=[
               ("dispatch_runner", "implies(isinstance(old(self.farmer), Runner), called('Crop.reap_runner') and call_arg('Crop.reap_runner', 'runner') == old(self.farmer) "
@@ -459,6 +458,18 @@ def install3(R):
 
     def harvest_path_v(eng, fr, h):
         hv = SV("obj", eng.as_V(h), meta={"cls": "Harvester"})
-        return harvest_path(eng, fr, hv)
+        return S["HarvestPath"](eng, fr, hv)
     S["HarvestPathV"] = harvest_path_v
+
+    def harvester_named_v(eng, fr, h):
+        import ast as _ast
+        hv = SV("obj", eng.as_V(h), meta={"cls": "Harvester"})
+        st = fr.st
+        saved = st.env
+        st.env = dict(saved, _H_=hv)
+        try:
+            return eng.ev(_ast.parse(HNAMED, mode="eval").body, fr.sub(spec=True))
+        finally:
+            st.env = saved
+    S["HarvesterNamedV"] = harvester_named_v
     return R
